@@ -72,6 +72,51 @@ Fixpoint denied_from (allowed : string -> bool) (i : nat) (o : list oobs) : list
 Definition has_sub_step (ops : list step) : bool :=
   existsb (fun s => match s with SSub => true | _ => false end) ops.
 
+(** ** a table that changes during the script ([SAcl] steps)
+
+    The per-response check uses the table in force when the response is sent,
+    i.e. during the step that produced it; the single-target check the table
+    in force at the Subscribe step. *)
+Definition has_acl_step (ops : list step) : bool :=
+  existsb (fun s => match s with SAcl _ => true | _ => false end) ops.
+
+Fixpoint table_at_sub (tbl : list (string * string * bool)) (ops : list step) :=
+  match ops with
+  | [] => tbl
+  | SSub :: _ => tbl
+  | SAcl t :: r => table_at_sub t r
+  | _ :: r => table_at_sub tbl r
+  end.
+
+Fixpoint dyn_from (u : string) (tbl : list (string * string * bool)) (complete : bool) (i : nat)
+  (ops : list step) (o1 o2 : list oobs) : list (nat * N) :=
+  match ops, o1, o2 with
+  | s :: ops', a :: r1, b :: r2 =>
+      let allowed := allow_of tbl u in
+      let tbl' := match s with SAcl t => t | _ => tbl end in
+      (if denied_sent allowed (ob_group a) then [(i, 2%N)] else [])
+      ++ (if complete && N.eqb (ob_burst a) 0
+             && negb (group_eqb (expand (ob_group a)) (keep_allowed allowed (expand (ob_group b))))
+          then [(i, 3%N)] else [])
+      ++ dyn_from u tbl' complete (S i) ops' r1 r2
+  | [], [], [] => []
+  | _, _, _ => if complete then [(i, 3%N)] else []
+  end.
+
+Definition kp_c07_dyn (cs : case) (tbl : list (string * string * bool)) (u : string) : list (nat * N) :=
+  let n := List.length (c_ops cs) in
+  let same_status := if status_eqb (c_status cs) (c_status2 cs) then [] else [(n, 3%N)] in
+  match single_target (live_at_sub (c_targets cs) (c_ops cs)) (c_req cs) with
+  | Some t =>
+      if allow_of (table_at_sub tbl (c_ops cs)) u t then
+        dyn_from u tbl true 0 (c_ops cs) (c_obs cs) (c_obs2 cs) ++ same_status
+      else
+        dyn_from u tbl false 0 (c_ops cs) (c_obs cs) (c_obs2 cs)
+        ++ (if status_eqb (c_status cs) SPermissionDenied && groups_empty (c_obs cs)
+            then [] else [(n, 5%N)])
+  | None => dyn_from u tbl true 0 (c_ops cs) (c_obs cs) (c_obs2 cs) ++ same_status
+  end.
+
 Definition kp_c07 (cs : case) : list (nat * N) :=
   let n := List.length (c_ops cs) in
   match c_acl cs with
@@ -82,6 +127,7 @@ Definition kp_c07 (cs : case) : list (nat * N) :=
       | None =>
           if status_eqb (c_status cs) SUnauthenticated && groups_empty (c_obs cs) then [] else [(n, 4%N)]
       | Some u =>
+          if has_acl_step (c_ops cs) then kp_c07_dyn cs tbl u else
           let allowed := allow_of tbl u in
           denied_from allowed 0 (c_obs cs)
           ++ match single_target (live_at_sub (c_targets cs) (c_ops cs)) (c_req cs) with
